@@ -462,3 +462,38 @@ func ruleLastLane(p *Prog, r *Report, af *asmFile) {
 		r.OK("LASTLANE", key, at, "stored as a sum with the constant +0, as in the vector kernels")
 	}
 }
+
+// ---- ALIGN: the vector DCT kernels make no alignment-requiring memory access --------------------------------------
+//
+// The argument of the kernels is an arbitrary []float32 — a sub-slice of a pixel buffer is aligned to 4 bytes, no
+// more — and the Go frame of an assembly function is not 16-byte aligned by contract either. MOVAPS/VMOVAPS/MOVDQA/
+// VMOVDQA/MOVNT* with a memory operand fault on an address that is not a multiple of their width, where the portable
+// kernel just works. None of the three kernels may contain one (register-to-register forms are harmless).
+func ruleAsmAlign(r *Report, af *asmFile) {
+	needAligned := map[string]bool{"MOVAPS": true, "VMOVAPS": true, "MOVAPD": true, "VMOVAPD": true, "MOVDQA": true, "VMOVDQA": true,
+		"MOVNTPS": true, "VMOVNTPS": true, "MOVNTDQ": true, "VMOVNTDQ": true, "MOVNTDQA": true, "VMOVNTDQA": true}
+	for _, t := range af.texts {
+		if !strings.Contains(t.name, "DCT") {
+			continue
+		}
+		key := "asm_x86.s " + t.name + " | no alignment-requiring memory access"
+		bad := ""
+		n := 0
+		for _, in := range t.instrs {
+			n++
+			if !needAligned[in.mn] {
+				continue
+			}
+			for _, o := range in.ops {
+				if o.kind == "mem" && bad == "" {
+					bad = fmt.Sprintf("%s %s at asm_x86.s:%d faults unless the address is a multiple of the operand width: a sub-slice of a pixel buffer (aligned to 4 bytes) crashes the vector kernel where the portable kernel works", in.mn, o.raw, in.line)
+				}
+			}
+		}
+		if bad != "" {
+			r.Bad("ALIGN", key, fmt.Sprintf("asm_x86.s:%d", t.line), bad)
+		} else {
+			r.OK("ALIGN", key, fmt.Sprintf("asm_x86.s:%d", t.line), fmt.Sprintf("%d instructions, every memory access is an unaligned form", n))
+		}
+	}
+}
